@@ -60,6 +60,10 @@ CONC_SNIPPETS = (
     "{% if user.active and user.age > n %}A{{ user.name }}{% elsif user.tags contains 'vip' %}B{% else %}C{{ user.address.city }}{% endif %}",
     "{% unless user.active %}U{{ user.name }}{% else %}V{% endunless %}",
     "{% case user.name %}{% when s, t %}S{% when 'alice' or 'bob' %}AB{{ user.age }}{% else %}E{{ user.name }}{% endcase %}",
+    "{% case user.name %}{% when user.address.city %}C{% when products[0].title, user.name %}N{{ user.age }}{% when h.b or user.name %}H{{ user.name }}{% else %}E{% endcase %}",
+    "{% case user.tags.size %}{% when nums[1] %}a{% when user.tags.size %}b{{ user.age }}{% when products.size %}c{% endcase %}",
+    "{% for p in products %}{% case p.title %}{% when user.name %}u{% when p.title %}[{{ p.price }}]{% endcase %}{% endfor %}",
+    "{% if user.name == s %}1{% elsif user.name == user.name %}2{{ user.age }}{% elsif user.age > n %}3{% endif %}",
     "{% assign x = user.name | append: s %}{% capture c %}{{ x }}{{ user.age }}{% endcapture %}{{ c }}",
     "{% cycle user.name, s, t %}{% cycle user.name, s, t %}", "{% increment c1 %}{% decrement c1 %}{{ c1 }}",
     "{% include 'gvp' %}", "{% include 'gvp' with user as who %}", "{% render 'gvp', user: user, gv: s %}",
@@ -376,7 +380,7 @@ def gen_plan(seed: int, tier: str) -> dict:
     r = rng.random()
     n_prog = rng.choice([1, 1, 2])
     designed = rng.random() < 0.1
-    conc = (not designed) and rng.random() < 0.12
+    conc = (not designed) and rng.random() < 0.2
     if conc:
         n_prog = 1
     for _ in range(n_prog):
@@ -415,7 +419,7 @@ def gen_plan(seed: int, tier: str) -> dict:
     if rng.random() < 0.3:
         for p in progs:
             p["name"] = rng.choice(["main", "dir/main.html"])
-    k = rng.choice([2, 3, 4]) if conc else rng.choice([1, 2, 2, 3, 4])
+    k = rng.choice([2, 3, 3, 4]) if conc else rng.choice([1, 2, 2, 3, 4])
     ops = []
     names = list(partials)
     contention = rng.random() < 0.2  # several tasks load the SAME name with different globals
